@@ -65,7 +65,8 @@ type Point struct {
 	Chosen    int
 	Enabled   []int // thread ids in canonical order (thread points); -1 = advance time
 	CurEnable bool  // the running thread was still enabled (alternative 0 is it): other choices are preemptions
-	Advance   bool  // the last alternative is "let the next short timer fire"
+	Advance   bool  // the last alternative (before a postpone alternative) is "let the next short timer fire"
+	Postpone  bool  // the very last alternative is "postpone the default thread" (sticky delay)
 	Op        string
 	At        string
 	FP        uint32 // cumulative fingerprint (all points up to this one) for replay-divergence detection
@@ -103,6 +104,8 @@ type Sched struct {
 	Diverged  string   // replay divergence (engine error)
 	short     []time.Time
 	From      int // exploration branches only at points >= From (see StartExploration)
+	postpone  bool
+	postponed map[*Thread]bool
 	Start     time.Time
 	End       time.Time
 }
@@ -450,7 +453,8 @@ func (s *Select) Run() int {
 }
 
 // choose consumes the next choice of the prefix (default 0) and records the point.
-func (s *Sched) choose(kind string, n int, op, at string, enabled []int, curEn, adv bool) int {
+func (s *Sched) choose(kind string, n int, op, at string, enabled []int, curEn, adv bool, pp ...bool) int {
+	post := len(pp) > 0 && pp[0]
 	i := len(s.Points)
 	fp := s.fp*16777619 ^ uint32(n) // cumulative over all points so far (choices excluded)
 	fp = fp*16777619 ^ uint32(len(kind))
@@ -462,6 +466,9 @@ func (s *Sched) choose(kind string, n int, op, at string, enabled []int, curEn, 
 	}
 	if adv {
 		fp = fp*16777619 ^ 2
+	}
+	if post {
+		fp = fp*16777619 ^ 4
 	}
 	if fp == 0 {
 		fp = 1
@@ -478,7 +485,7 @@ func (s *Sched) choose(kind string, n int, op, at string, enabled []int, curEn, 
 			s.Diverged = fmt.Sprintf("replay divergence: the %d replayed points (last: %s point, %d alternatives %v) do not match the recorded execution", i+1, kind, n, enabled)
 		}
 	}
-	s.Points = append(s.Points, Point{Kind: kind, N: n, Chosen: c, Op: op, At: at, Enabled: enabled, CurEnable: curEn, Advance: adv, FP: fp})
+	s.Points = append(s.Points, Point{Kind: kind, N: n, Chosen: c, Op: op, At: at, Enabled: enabled, CurEnable: curEn, Advance: adv, Postpone: post, FP: fp})
 	return c
 }
 
@@ -488,11 +495,16 @@ type Options struct {
 	ExpectFP uint32 // cumulative fingerprint of the recorded execution at the last point of the prefix (0 = unchecked)
 	MaxSteps int
 	Trace    bool
+	// Postpone adds one more alternative to every thread choice point: "postpone the default
+	// thread" - it is not scheduled again while any other thread can run (sticky delay). This is
+	// what exposes check-then-act windows that need one thread to stand still while a whole
+	// protocol round of the others completes.
+	Postpone bool
 }
 
 // Run executes main under the scheduler and returns the finished execution.
 func Run(t *testing.T, o Options, main func()) (s *Sched) {
-	s = &Sched{prefix: o.Prefix, expectFP: o.ExpectFP, MaxSteps: o.MaxSteps, TraceOn: o.Trace}
+	s = &Sched{prefix: o.Prefix, expectFP: o.ExpectFP, MaxSteps: o.MaxSteps, TraceOn: o.Trace, postpone: o.Postpone, postponed: map[*Thread]bool{}}
 	S = s
 	defer func() {
 		s.dead = true
@@ -583,9 +595,30 @@ func Run(t *testing.T, o Options, main func()) (s *Sched) {
 			}
 			s.short = s.short[:k]
 			adv := !next.IsZero()
+			// postponed threads go to the back; if only postponed threads can run, the first runs again
+			if len(s.postponed) > 0 {
+				var front, back []*Thread
+				for _, th := range en {
+					if s.postponed[th] {
+						back = append(back, th)
+					} else {
+						front = append(front, th)
+					}
+				}
+				if len(front) == 0 {
+					delete(s.postponed, back[0])
+				} else if len(back) > 0 && curEn && s.postponed[en[0]] {
+					curEn = false // the running thread is postponed: the default is somebody else
+				}
+				en = append(front, back...)
+			}
 			choice := 0
 			n := len(en)
 			if adv {
+				n++
+			}
+			pp := s.postpone && len(en) > 1 && !s.postponed[en[1]]
+			if pp {
 				n++
 			}
 			if n > 1 {
@@ -596,7 +629,19 @@ func Run(t *testing.T, o Options, main func()) (s *Sched) {
 				if adv {
 					ids = append(ids, -1)
 				}
-				choice = s.choose("thread", n, "", "", ids, curEn, adv)
+				if pp {
+					ids = append(ids, -2)
+				}
+				choice = s.choose("thread", n, "", "", ids, curEn, adv, pp)
+				if pp && choice == n-1 { // postpone the default thread, run the next one
+					s.postponed[en[0]] = true
+					if s.TraceOn {
+						s.Trace = append(s.Trace, Step{I: len(s.Trace), Thread: en[0].ID, Name: en[0].Name, Op: "POSTPONED", At: en[0].at})
+					}
+					choice = 1
+				} else if choice < len(en) && choice > 0 {
+					delete(s.postponed, en[choice]) // explicitly chosen
+				}
 				if choice < len(en) {
 					p := &s.Points[len(s.Points)-1]
 					p.Op, p.At = en[choice].op, en[choice].at
